@@ -16,13 +16,18 @@ def check(ctx: Ctx) -> None:
     rep = ctx.rep
     rep.rule("R12.1", "release before user code: life-cycle typestate - on every path, including those where the coroutine or a callback raises, "
                       "the slot is released exactly once, before the end callback runs, and the wrapper ends with the task filed as ended")
-    check_lifecycle(ctx, "R12.1", {"slot", "loc", "end"})
+    # ("never a different one": a cancel callback that runs while its task is still filed as running can be cancelled a second time -
+    # by cancel()/cancel_group()/cancel_all()/stop(), also from inside the callback - and that CancelledError replaces what the callback raises)
+    check_lifecycle(ctx, "R12.1", {"slot", "loc", "end", "cancel"})
     r_map_end_wrapper(ctx, "R12.1m")
     r_no_swallow(ctx, "R12.2")
     S.r_lifecycle_callers(ctx, "R12.2h")
     SP.r_spawner_iterations(ctx, "R12.3")
     CL.r_return_exceptions(ctx, "R12.4")
     CL.r_forget_only_gathered(ctx, "R12.6")
+    # "never a different one": an iterator over a registry created before a suspension and advanced after it raises RuntimeError
+    # (dictionary changed size during iteration) out of gather_and_close when an overlapping flush()/cancel_group() dropped a key meanwhile
+    CL.r_fresh_members(ctx, "R12.7", clauses=("iter",))
     r_only_user_raises(ctx, "R12.5")
     S.r_snapshot_forget(ctx, "R13.1")
     S.r_registry_who(ctx, "R03.1")
